@@ -953,6 +953,12 @@ namespace link_layer {
             return current_channel_index_ == first_channel_index();
         }
 
+        void first_channel()
+        {
+            if ( map_ )
+                current_channel_index_ = first_channel_index();
+        }
+
     private:
         unsigned first_channel_index() const
         {
@@ -1000,6 +1006,11 @@ namespace link_layer {
         bool first_channel_selected() const
         {
             return current_channel_index_ == this->first_advertising_channel;
+        }
+
+        void first_channel()
+        {
+            current_channel_index_ = first_advertising_channel;
         }
 
     private:
@@ -1141,6 +1152,9 @@ namespace link_layer {
                     this->base_link_layer().set_access_address_and_crc_init(
                         this->advertising_radio_access_address,
                         this->advertising_crc_init );
+
+                    // a new advertising event starts with the first used channel
+                    this->first_channel();
 
                     this->base_link_layer().schedule_advertisment(
                         this->current_channel(),
@@ -1323,6 +1337,9 @@ namespace link_layer {
                     this->base_link_layer().set_access_address_and_crc_init(
                         this->advertising_radio_access_address,
                         this->advertising_crc_init );
+
+                    // a new advertising event starts with the first used channel
+                    this->first_channel();
 
                     this->base_link_layer().schedule_advertisment(
                         this->current_channel(),
